@@ -102,7 +102,7 @@ def main():
 
 
 NA = {}
-PYVC = {'C01', 'C02', 'C03', 'C05', 'C07', 'C13', 'C14', 'C16', 'C19'}
+PYVC = {'C01', 'C02', 'C03', 'C05', 'C07', 'C10', 'C13', 'C14', 'C16', 'C19'}
 
 if __name__ == '__main__':
     main()
